@@ -232,6 +232,8 @@ pub struct ClientCtx {
     pub scopes: Vec<Slot<Rc<LifetimeScope>>>,
     pub lts: Vec<Slot<Lifetime>>,
     pub shutdown_requested: Cell<bool>,
+    /// a pending reply was dropped and the client has not verifiably processed the abort yet
+    pub abort_dirty: Cell<bool>,
     pub cancel: Cancel,
 }
 
@@ -259,6 +261,7 @@ impl ClientCtx {
             scopes: slots(NSCOPE),
             lts: slots(NLT),
             shutdown_requested: Cell::new(false),
+            abort_dirty: Cell::new(false),
             cancel: Cancel::default(),
         })
     }
@@ -271,6 +274,9 @@ impl ClientCtx {
     pub fn drop_replies(&self) -> usize {
         let stash = std::mem::take(&mut *self.stash.borrow_mut());
         let n = stash.len();
+        if n > 0 {
+            self.abort_dirty.set(true);
+        }
         drop(stash);
         n
     }
@@ -818,7 +824,11 @@ async fn exec(w: &Rc<World>, t: &Rc<TaskCtx>, cc: &Rc<ClientCtx>, op: &Op) -> St
         }
         Op::SyncClient => {
             let Some(h) = cc.h() else { return skip(w) };
+            let dirty_before = cc.abort_dirty.replace(false);
             let r = t.req("sync_client", h.sync_client()).await;
+            if r.is_err() && dirty_before {
+                cc.abort_dirty.set(true);
+            }
             res_name(&r)
         }
         Op::SyncBroker => {
@@ -850,6 +860,21 @@ async fn exec(w: &Rc<World>, t: &Rc<TaskCtx>, cc: &Rc<ClientCtx>, op: &Op) -> St
             if !may_stop_client(w, ci) {
                 w.count("excluded:f2");
                 return "excluded:f2".into();
+            }
+            if cc.abort_dirty.get() {
+                if w.allow_late_abort {
+                    // a reply was dropped just before: the client may meet the abort while it
+                    // is already shutting down (F5 trigger)
+                    w.count("late-abort");
+                } else {
+                    // F5 exclusion: let the client process the abort first
+                    w.count("excluded:f5");
+                    cc.abort_dirty.set(false);
+                    let _ = t.req("sync_client", h.sync_client()).await;
+                    if cc.abort_dirty.get() || cc.shutdown_requested.get() {
+                        return "excluded:f5".into();
+                    }
+                }
             }
             w.note_client_teardown(ci);
             cc.shutdown_requested.set(true);
@@ -1054,6 +1079,7 @@ async fn exec(w: &Rc<World>, t: &Rc<TaskCtx>, cc: &Rc<ClientCtx>, op: &Op) -> St
             match mode {
                 CallMode::Await => await_reply(w, t, reply, nonce, cookie).await,
                 CallMode::Abort => {
+                    cc.abort_dirty.set(true);
                     drop(reply);
                     w.board.borrow_mut().inflight.remove(&nonce);
                     w.count("call:aborted-by-drop");
@@ -1083,6 +1109,7 @@ async fn exec(w: &Rc<World>, t: &Rc<TaskCtx>, cc: &Rc<ClientCtx>, op: &Op) -> St
             let x = cc.stash.borrow_mut().pop_front();
             match x {
                 Some((reply, nonce, _)) => {
+                    cc.abort_dirty.set(true);
                     drop(reply);
                     w.board.borrow_mut().inflight.remove(&nonce);
                     w.count("call:aborted-by-drop");
